@@ -588,3 +588,87 @@ Proof.
       apply existsb_exists. exists x. split; [exact Hx|]. unfold on_key.
       rewrite Hk. apply skey_eqb_refl.
 Qed.
+
+(* ---- a closed handle stays closed: "usable exactly from open until close" over whole histories ---- *)
+Definition Dead (h : N) (sp : spec) : Prop :=
+  (forall x, In x (open sp) -> oh_id x <> h) /\ h < s_next sp.
+
+Lemma spec_find_none_notin h o :
+  (forall x, In x o -> oh_id x <> h) -> spec_find h o = None.
+Proof.
+  induction o as [|y o IH]; [reflexivity|]. intros H. cbn [spec_find].
+  destruct (oh_id y =? h) eqn:E.
+  - apply N.eqb_eq in E. exfalso. exact (H y (or_introl eq_refl) E).
+  - apply IH. intros x Hx. apply H. right; exact Hx.
+Qed.
+
+Lemma Dead_step h sp o sp' :
+  Dead h sp -> fst (spec_step sp o) = Some sp' -> Dead h sp'.
+Proof.
+  intros [Hn Hlt]. destruct o as [k ro d|h2|h2|k|n]; cbn [spec_step].
+  - destruct (spec_can_lock (open sp) k ro).
+    + destruct (s_next sp =? U32_MAX); cbn [fst]; [discriminate|].
+      intros E; inversion E; subst sp'; clear E. split; cbn [open s_next]; [|lia].
+      intros x Hx. apply in_app_or in Hx. destruct Hx as [Hx|[<-|[]]]; [auto|].
+      cbn [oh_id]. lia.
+    + cbn [fst]. intros E; inversion E; subst sp'. split; assumption.
+  - destruct (spec_find h2 (open sp)); cbn [fst]; [|discriminate].
+    intros E; inversion E; subst sp'; clear E. split; cbn [open s_next]; [|exact Hlt].
+    intros x Hx. apply Hn. eapply spec_remove_subset; exact Hx.
+  - destruct (spec_find h2 (open sp)); cbn [fst]; [|discriminate].
+    intros E; inversion E; subst sp'. split; assumption.
+  - cbn [fst]. intros E; inversion E; subst sp'. split; assumption.
+  - cbn [fst]. intros E; inversion E; subst sp'. split; assumption.
+Qed.
+
+Lemma Dead_exec h ops : forall sp sp',
+  Dead h sp -> spec_exec sp ops = Some sp' -> Dead h sp'.
+Proof.
+  induction ops as [|o t IH]; intros sp sp' Hd; cbn [spec_exec].
+  - intros E; inversion E; subst; exact Hd.
+  - destruct (fst (spec_step sp o)) as [s1|] eqn:E1; [|discriminate].
+    intros H. eapply IH; [|exact H]. eapply Dead_step; [exact Hd|exact E1].
+Qed.
+
+Lemma Dead_after_unlock ops sp h sp' :
+  spec_exec spec_new ops = Some sp ->
+  fst (spec_step sp (OpUnlock h)) = Some sp' -> Dead h sp'.
+Proof.
+  intros Hr. destruct (handles_never_reused _ _ Hr) as [Hnd Hlt].
+  cbn [spec_step]. destruct (spec_find h (open sp)) as [x|] eqn:E; cbn [fst]; [|discriminate].
+  intros E'; inversion E'; subst sp'; clear E'.
+  destruct (spec_find_split _ _ _ E) as (l1 & l2 & Ho & Hrm & Hid).
+  split; cbn [open s_next].
+  - rewrite Hrm. rewrite Ho in Hnd. rewrite map_app in Hnd. cbn [map] in Hnd.
+    apply NoDup_remove_2 in Hnd. intros y Hy Hy2. apply Hnd. rewrite <- map_app.
+    rewrite Hid, <- Hy2. apply in_map. exact Hy.
+  - rewrite <- Hid. apply Hlt. rewrite Ho. apply in_or_app. right. left. reflexivity.
+Qed.
+
+(* after an open handle is unlocked in any reachable state, no later history makes it usable again:
+   get and unlock on it panic in every state reachable afterwards (ids are never handed out twice) *)
+Theorem closed_handle_stays_closed ops sp h sp' rest sp'' :
+  spec_exec spec_new ops = Some sp ->
+  fst (spec_step sp (OpUnlock h)) = Some sp' ->
+  spec_exec sp' rest = Some sp'' ->
+  snd (spec_step sp'' (OpGet h)) = OutPanic /\ snd (spec_step sp'' (OpUnlock h)) = OutPanic
+  /\ forall k ro d, snd (spec_step sp'' (OpLock k ro d)) <> OutLock (Some h).
+Proof.
+  intros Hr Hu He.
+  assert (Hd : Dead h sp'') by (eapply Dead_exec; [eapply Dead_after_unlock; eassumption|exact He]).
+  destruct Hd as [Hn Hlt]. cbn [spec_step]. rewrite (spec_find_none_notin _ _ Hn). cbn [snd].
+  split; [reflexivity|]. split; [reflexivity|]. intros k ro d.
+  destruct (spec_can_lock (open sp'') k ro); [|cbn [snd]; discriminate].
+  destruct (s_next sp'' =? U32_MAX); cbn [snd]; [discriminate|].
+  intros E; inversion E. lia.
+Qed.
+
+(* a handle that was never handed out is not usable either *)
+Theorem unissued_handle_unusable ops sp h :
+  spec_exec spec_new ops = Some sp -> s_next sp <= h ->
+  snd (spec_step sp (OpGet h)) = OutPanic.
+Proof.
+  intros Hr Hh. destruct (handles_never_reused _ _ Hr) as [_ Hlt].
+  cbn [spec_step]. rewrite spec_find_none_fresh; [reflexivity|].
+  intros x Hx. specialize (Hlt x Hx). lia.
+Qed.
